@@ -136,6 +136,74 @@ def generator_cases(out):
             impl_prog.residual_state()
 
 
+def wrapped_generator_cases(out):
+    """old-style decoration of a generator function that sits under further `functools.wraps`-style decorators (plain,
+    with a `__signature__`, with extra attributes, two levels): whatever the chain looks like, the values the generator
+    yields later are not checked against — and bind nothing in — the context of whoever consumes it"""
+    import functools
+    import inspect
+    import typing
+
+    import typeguard
+
+    def plain(f):
+        @functools.wraps(f)
+        def w(*a, **k):
+            return f(*a, **k)
+        return w
+
+    def with_signature(f):
+        w = plain(f)
+        w.__signature__ = inspect.signature(f)
+        return w
+
+    def with_attrs(f):
+        w = plain(f)
+        w.calls = 0
+        w.__signature__ = inspect.signature(f)
+        w.__text_signature__ = "(x)"
+        return w
+
+    chains = [("no extra decorator", lambda f: f), ("wraps", plain), ("wraps + __signature__", with_signature), ("wraps + attributes", with_attrs),
+              ("two levels, inner with __signature__", lambda f: plain(with_signature(f))), ("two levels, outer with __signature__", lambda f: with_signature(plain(f)))]
+    for cname, chain in chains:
+        Ann = Float[Duck, "n"]          # a fresh annotation object per chain (known finding F2 is about sharing it)
+
+        def chunks(x: Ann) -> typing.Iterator[Ann]:
+            yield x
+            yield x
+
+        try:
+            fn = jaxtyped(typeguard.typechecked(chain(chunks)))
+        except BaseException as e:  # noqa: BLE001
+            out.count("wrapped_generator_not_decoratable")
+            continue
+        res = {}
+        try:
+            with jaxtyped("context"):
+                isinstance(Duck((5,), "float32"), Float[Duck, "n"])
+                b0 = impl.canon_bindings(impl.bindings())["single"]
+                try:
+                    res["items"] = len(list(fn(Duck((3,), "float32"))))
+                except BaseException as e:  # noqa: BLE001
+                    res["items"] = f"raised {type(e).__name__}"
+                res["consumer"] = (b0, impl.canon_bindings(impl.bindings())["single"])
+            with jaxtyped("context"):
+                try:
+                    list(fn(Duck((3,), "float32")))
+                except BaseException:  # noqa: BLE001
+                    pass
+                res["fresh_consumer"] = impl.canon_bindings(impl.bindings())["single"]
+        finally:
+            impl_prog.drain_stack()
+        out.case(("wrapped-generator", cname), True, sample={"chain": cname, **{k: str(v) for k, v in res.items()}})
+        if res.get("items") != 2 or res["consumer"][0] != res["consumer"][1] or res.get("fresh_consumer") != []:
+            out.violation("wrapped-generator", f"@jaxtyped @typechecked over [{cname}] over a generator function: consumed inside a block that has n=5 bound it gives "
+                          f"{res.get('items')} (2 items), the block's bindings go {res['consumer'][0]} -> {res['consumer'][1]}; consumed inside an empty block it leaves "
+                          f"{res.get('fresh_consumer')} bound there ([])", {"wrapped_generator": cname})
+            return
+
+
 def run_one(out, drv, facts, prog, checker, rng, tag):
     skel, wrap = extract.skel_request(facts)
     w = drv.ask({"cmd": "prog", "prog": prog, "skel": skel, "wrap": wrap})
@@ -492,6 +560,7 @@ def run(tier, seed, out, drv, facts):
     rng = Rng(seed, "C05")
     thorough = tier == "thorough"
     generator_cases(out)
+    wrapped_generator_cases(out)
     recursion_cases(out)
     awkward_exception_cases(out)
     recursion_limit_cases(out)
@@ -516,6 +585,9 @@ def replay(rep, out, drv, facts):
         return
     if "awkward" in rep:
         awkward_exception_cases(out)
+        return
+    if "wrapped_generator" in rep:
+        wrapped_generator_cases(out)
         return
     if "recursion_limit" in rep:
         recursion_limit_cases(out)
